@@ -1,4 +1,4 @@
-"""C01 -- deserialization accepts exactly conforming data and builds the typed value.
+"""C02 -- deserialization rejections report every violation once, at its location.
 
 P: Layer-1 contracts of the deserialization nodes (accept-iff-conforms, typed image), for
 arbitrary children and arbitrary data.  B: run-time contract of apischema.deserialize against
@@ -9,14 +9,14 @@ from vf.pcheck import run_p
 from .common import ASSUME_CHILDREN, TRUSTED, generic_replay
 
 LEVEL = "proof"
-PROP = "C01"
+PROP = "C02"
 
 
 def run(report, tier, seed):
     report.trusted = list(TRUSTED)
     report.assumptions.append(ASSUME_CHILDREN)
     run_p(report, PROP, tier)
-    deser_e2e.run(report, tier, seed, ("accept", "image"), "deserialize_vs_reference")
+    deser_e2e.run(report, tier, seed, ("errors",), "deserialize_vs_reference")
 
 
 replay = generic_replay
